@@ -1271,3 +1271,53 @@ def reads_never_empty(run, fns, rule='R11', inst='read-size-nonzero'):
                           'the read of `%s` bytes is issued without a dominating test that this is not zero: when it is, the read is parked until the NEXT packet arrives - a peer that has sent its whole message and waits for the answer is never answered (with a full buffer and data queued it completes at once with 0 bytes, again and again at one virtual instant)' % q.render(g, size),
                           'dominated by a test excluding zero')
     return n
+
+
+# ---------------------------------------------------------------------------------------------------------------------
+# address::to_v4() / to_v6() throw bad_address_cast for the other family
+# one cast is accepted on the author's stated belief instead of a test (one named site, with the reason):
+ADDRESS_CAST_BELIEFS = {
+    ('sim::socks_connection::format_response', 'addr', 'to_v4', '(m_version == 5)', False):
+        'SOCKS4 replies: version 4 requests carry an IPv4 target only, so every endpoint a version-4 reply reports (the local endpoint of the v4 origin/bind socket, or address_v4()) is IPv4 - asserted by the author at the site',
+}
+
+
+def address_casts_guarded(run, fns, rule='R4', inst='address-cast-guarded'):
+    """boost::asio::ip::address::to_v4()/to_v6() throw when the address is of the other family, and nothing in the library
+    catches that: the exception leaves simulation::run().  Every such cast is dominated by a family test of the same
+    address expression (is_v4() / is_v6(), either polarity as appropriate).  Returns the number of casts judged."""
+    n = 0
+    for g in fns:
+        if g.cfg is None:
+            continue
+        for c in g.calls():
+            nm = (q.callee_name(c) or '')
+            if not (nm.endswith('address::to_v4') or nm.endswith('address::to_v6')) or not is_node(c.get('obj')):
+                continue
+            n += 1
+            run.touch(g)
+            want = 'is_v4' if nm.endswith('to_v4') else 'is_v6'
+            other = 'is_v6' if want == 'is_v4' else 'is_v4'
+            obj = q.render(g, q.strip_casts(c['obj'])).replace('this->', '')
+            ok = False
+            for at, pol in q.guards_at(g, c):
+                for x in walk(at):
+                    if x['k'] == 'call' and is_node(x.get('obj')) and q.render(g, q.strip_casts(x['obj'])).replace('this->', '') == obj:
+                        m = (q.callee_name(x) or '').split('::')[-1]
+                        # the atom may be the call itself or its negation: take the polarity of the whole atom when the atom IS the call
+                        a_ = q.strip_casts(at)
+                        neg = is_node(a_) and a_['k'] == 'un' and a_.get('op') == '!'
+                        eff = pol != neg
+                        if (m == want and eff) or (m == other and not eff):
+                            ok = True
+            if not ok:
+                for (fn_, obj_, cast_, gtxt, gpol), why in ADDRESS_CAST_BELIEFS.items():
+                    if g.norm == fn_ and obj == obj_ and nm.endswith(cast_) and any(q.render(g, q.strip_casts(at)).replace('this->', '') == gtxt and pol == gpol for at, pol in q.guards_at(g, c)):
+                        run.ok(rule, inst, '%s: %s.%s()' % (g.norm, obj[:40], nm.split('::')[-1]), g.loc(c), 'tabled belief: ' + why, nontrivial=False)
+                        ok = None
+                if ok is None:
+                    continue
+            run.check(ok, rule, inst, '%s: %s.%s()' % (g.norm, obj[:40], nm.split('::')[-1]), g.loc(c),
+                      '%s.%s() is evaluated without a dominating test of the address family: for an address of the other family it throws bad_address_cast, which nothing catches - the exception leaves simulation::run() and ends the simulation for every connection (e.g. a datagram with an IPv6 source reaching an IPv4 relay socket)' % (obj, nm.split('::')[-1]),
+                      'dominated by %s() on the same address' % want)
+    return n
